@@ -271,11 +271,9 @@ sequence holding an x was at distance 1 of itself and obiclean missed the links 
 						return true
 					})
 				}
-				if alloc == nil {
-					s.Undecided(nil, key, fd.Pos(), "no allocation of the rows")
-				} else {
-					// the variable the rows are sliced with: the non constant factor of the size
-					var width ast.Expr
+				// the variable the rows are sliced with: the non constant factor of the size
+				var width ast.Expr
+				if alloc != nil {
 					ast.Inspect(alloc.Args[1], func(n ast.Node) bool {
 						if id, ok := n.(*ast.Ident); ok && width == nil {
 							if _, isC := constInt(info, id); !isC {
@@ -284,6 +282,53 @@ sequence holding an x was at distance 1 of itself and obiclean missed the links 
 						}
 						return true
 					})
+				} else {
+					// the rows may be carved by a helper of the package: the argument bound to the parameter that sizes its allocation
+					for _, st := range fd.Body.List {
+						ast.Inspect(st, func(n ast.Node) bool {
+							call, ok := n.(*ast.CallExpr)
+							if !ok || alloc != nil {
+								return true
+							}
+							f := callee(info, call)
+							if f == nil || f.Pkg() == nil || rel(f.Pkg().Path()) != "pkg/obialign" {
+								return true
+							}
+							d, dp := c.DeclOf(f)
+							if d == nil || d.Body == nil {
+								return true
+							}
+							hps := flattenParams(d.Type.Params)
+							ast.Inspect(d.Body, func(m ast.Node) bool {
+								mk, ok := m.(*ast.CallExpr)
+								if !ok {
+									return true
+								}
+								if id, ok := mk.Fun.(*ast.Ident); !ok || id.Name != "make" || len(mk.Args) < 2 {
+									return true
+								}
+								if t := dp.TypesInfo.TypeOf(mk.Args[0]); t == nil || !strings.HasSuffix(t.String(), "[]uint64") {
+									return true
+								}
+								ast.Inspect(mk.Args[1], func(q ast.Node) bool {
+									if id, ok := q.(*ast.Ident); ok {
+										for k, hp := range hps {
+											if hp != nil && dp.TypesInfo.ObjectOf(hp) == dp.TypesInfo.ObjectOf(id) && k < len(call.Args) && alloc == nil {
+												alloc, allocStmt, width = call, st, call.Args[k]
+											}
+										}
+									}
+									return true
+								})
+								return true
+							})
+							return true
+						})
+					}
+				}
+				if alloc == nil {
+					s.Undecided(nil, key, fd.Pos(), "no allocation of the rows")
+				} else {
 					var pre []ast.Stmt
 					for _, st := range fd.Body.List {
 						if st == allocStmt {
